@@ -312,8 +312,10 @@ void execute_status(const Plan &plan, Verdict &v, bool c11, bool c12) {
     std::vector<long> cuts;
     size_t cut_i = 0;
     uint64_t clock = 0;
+    uint64_t ilv = 0;   // interleaving signature: order of (actor, op kind)
     for (const Op &op : plan.ops) {
         if (v.violated) break;
+        ilv = mix64(ilv * 31 + fnv1a(op.kind) + (op.kind == "fw" ? (uint64_t) (op.arg(0) % K_NKINDS) * 7 + (uint64_t) (op.arg(1) % SCPI_REG_COUNT) * 131 : (uint64_t) std::count(op.s.begin(), op.s.end(), ';')));
         if (op.kind == "cuts") {
             cuts = op.a;
             cut_i = 0;
@@ -351,6 +353,7 @@ void execute_status(const Plan &plan, Verdict &v, bool c11, bool c12) {
     w.srq_observer = nullptr;
     w.err_observer = nullptr;
     g_run = nullptr;
+    if (g_collect) g_sets.add("interleaving", ilv);
     v.trace_hash = w.hash();
     v.nontrivial = w.nontrivial || !plan.ops.empty();
     v.sim_ms = clock;
